@@ -398,8 +398,8 @@ open PdshVerif.Dsh PdshVerif.Dsh.FanRelay PdshVerif.Relay
     interleaved) write exactly what the remote side sent on that stream, complete, in order, once, under `i`'s label
     (for contents in the relay's domain `Dom05`: no NUL byte, bounded line length, no rc marker split across the
     buffer — see Props/C05). -/
-theorem returns_after_output_delivered (cfg : Cfg) (names : Nat → Bytes) {sizeMeta : Nat} (hm1 : 1 ≤ sizeMeta)
-    (hm2 : sizeMeta ≤ 800) {b0 : PBuf} (hb0 : mkFifoBuf sizeMeta = some b0)
+theorem returns_after_output_delivered (cfg : Cfg) (names : Nat → Bytes) {sizeMeta : Nat}
+    (hg : growthOk sizeMeta = true) {b0 : PBuf} (hb0 : mkFifoBuf sizeMeta = some b0)
     {v : FanG.Variant} {f n : Nat} {sopt : Bool} {ls : List FanRelay.Label} {s : FanRelay.St}
     (he : FanRelay.Exec (FanRelay.init v f n sopt) ls s) (hf : FanG.Final s.fan) (i : Nat) (hi : i < n)
     (hconn : s.nofd.contains i = false) (strm : Bool) (hstrm : strm = true → sopt = true)
@@ -412,7 +412,7 @@ theorem returns_after_output_delivered (cfg : Cfg) (names : Nat → Bytes) {size
   have h1 := G.exit_after_all hfe hf i hi
   refine ⟨h1.1, h1.2.1, ?_⟩
   have hk := final_streams_complete he hf i hi hconn strm hstrm
-  exact PdshVerif.C05.relay_lossless_any_interleaving cfg names hm1 hm2 hb0 s.evs (i, strm)
+  exact PdshVerif.C05.relay_lossless_any_interleaving cfg names hg hb0 s.evs (i, strm)
     (chunksOf s.evs (i, strm)) hk hdom
 
 /-- non-vacuity of the composed system: one target, fanout 1; the worker connects, two chunks arrive on stdout, the
